@@ -396,7 +396,7 @@ class Run:
               "violations": len(self.violations), "known_findings": [k for k, _ in self.known], "notes": self.notes}
         # evidence/ only ever describes runs against /repo itself; runs pointed at a scratch tree (VERIF_REPO) write elsewhere
         # (a --replay of one recorded case is not a tier of the check either)
-        scratch = os.path.realpath(REPO) != "/repo" or getattr(self, "replaying", None)
+        scratch = os.path.realpath(REPO) != "/repo" or getattr(self, "replaying", None) or self.prop == "selftest"
         evdir = os.path.join(ROOT, ".work", "evidence-scratch") if scratch else EVID
         if evdir != EVID:
             ev["repo"] = os.path.realpath(REPO)
